@@ -201,9 +201,37 @@ def big_integer_copy_stream(ctx):
         ctx.case_done(None, ('bigint', it))
 
 
+def narrow_parameter_copy_stream(ctx):
+    """Single-precision images with parameters that are single-precision numbers (min_value = image.mean(), min_delta =
+    3 * image.std()): a dendrogram equals its own saved-and-loaded copy, in both formats and both directions."""
+    from astrodendro import Dendrogram
+    rng = ctx.rng('c20-narrow-params')
+    for it in range(16 if ctx.quick else 160):
+        shape = rng.choice([(rng.randint(5, 12),), (3, 4), (4, 4)])
+        arr = np.array([rng.randint(1, 97) / 97.0 for _ in range(int(np.prod(shape)))], dtype=np.float32).reshape(shape)
+        kw = {'min_value': arr.mean() * np.float32(0.5)}
+        if rng.random() < 0.5:
+            kw['min_delta'] = np.float32(0.1) * arr.std()
+        info = {'stream': 'single-precision parameters', 'shape': list(shape), 'data': [float(x) for x in arr.ravel()],
+                'parameters': {k_: '%s(%r)' % (type(v_).__name__, float(v_)) for k_, v_ in kw.items()}}
+        try:
+            d = Dendrogram.compute(arr, **kw)
+            for fmt in ('hdf5', 'fits'):
+                d2 = dc.save_load(d, fmt)
+                ctx.count('narrow_parameter_copies')
+                # (a single-precision number is written to a FITS card with its shortest text, at most 9 digits: nothing is cut off)
+                if not (bool(d == d2) and bool(d2 == d)):
+                    ctx.oracle_failure(dict(info, format=fmt), ['the dendrogram does not compare equal to its own saved-and-loaded copy (parameters %r -> %r)'
+                                                                % (dict(d.params), dict(d2.params))], {})
+        except Exception as e:
+            ctx.oracle_failure(info, ['raised %r' % (e,)], {})
+        ctx.case_done(None, ('narrow-params', it))
+
+
 def explore(ctx):
     mixed_dtype_stream(ctx)
     big_integer_copy_stream(ctx)
+    narrow_parameter_copy_stream(ctx)
     rng = ctx.rng('c20')
     terms, meta = [], []
     n = 120 if ctx.quick else 1200
